@@ -660,3 +660,40 @@ Proof.
   intro m. rewrite (file_get_set n v (f_pkg f) l1 q l2 m Hq Hni). destruct f as [pkg ps]. cbn [f_pkg f_props] in *.
   rewrite Hf. reflexivity.
 Qed.
+
+(* ------------------------------------------------------------------ *)
+(* what the padding computes: the '=' signs of consecutive specs line up unless a
+   documentation line separates them, and no name is truncated *)
+
+Fixpoint aligned (ps : list property) (pds : list nat) : Prop :=
+  match ps, pds with
+  | p :: r, a :: t =>
+      match r, t with
+      | q :: _, b :: _ => (has_doc q = false -> name_width p + a = name_width q + b)%nat
+      | _, _ => True
+      end /\ aligned r t
+  | _, _ => True
+  end.
+
+Lemma pads_aux_length : forall ps w first, length (pads_aux w first ps) = length ps.
+Proof. induction ps as [|p ps IH]; intros w first; cbn [pads_aux length]; [reflexivity|]. f_equal. apply IH. Qed.
+
+Lemma pads_aux_aligned : forall ps w first,
+  (first = false -> block_rest_width ps <= w)%nat -> aligned ps (pads_aux w first ps).
+Proof.
+  induction ps as [|p ps IH]; intros w first Hinv; cbn [pads_aux aligned]; [exact I|].
+  set (w' := if first || has_doc p then Nat.max (name_width p) (block_rest_width ps) else w).
+  assert (name_width p <= w' /\ block_rest_width ps <= w')%nat as [Hp Hr].
+  { subst w'. destruct (first || has_doc p) eqn:E; [lia|].
+    apply orb_false_iff in E. destruct E as [-> E]. specialize (Hinv eq_refl).
+    cbn [block_rest_width] in Hinv. rewrite E in Hinv. lia. }
+  split.
+  - destruct ps as [|q ps']; [exact I|]. cbn [pads_aux]. intro Hq. rewrite Hq. cbn [orb].
+    cbn [block_rest_width] in Hr. rewrite Hq in Hr. lia.
+  - apply IH. intros _. exact Hr.
+Qed.
+
+Lemma pads_aligned : forall ps, length (pads ps) = length ps /\ aligned ps (pads ps).
+Proof.
+  intro ps. unfold pads. split; [apply pads_aux_length|]. apply pads_aux_aligned. discriminate.
+Qed.
